@@ -6,6 +6,7 @@ package clientsets
 
 import (
 	"sort"
+	"time"
 
 	"k8s.io/client-go/rest"
 )
@@ -42,4 +43,17 @@ func VerifC13State(cs ClientSets) (int, map[int]string, []int) {
 	})
 	sort.Ints(keys)
 	return c.shardCount, m, keys
+}
+
+// VerifC13Heartbeat runs one heartbeat round (the real clientHeart: POST to every recorded leader, readiness).
+func VerifC13Heartbeat(cs ClientSets) { cs.(*clientSets).clientHeart() }
+
+// VerifC13AgeHeartbeats lets d of time pass for the readiness bookkeeping (lastChange moves into the past):
+// the only clock clientSets reads is time.Now() against heartbeatStatus.lastChange.
+func VerifC13AgeHeartbeats(cs ClientSets, d time.Duration) {
+	cs.(*clientSets).leaderReady.Range(func(_, v interface{}) bool {
+		st := v.(*heartbeatStatus)
+		st.lastChange = st.lastChange.Add(-d)
+		return true
+	})
 }
